@@ -23,8 +23,13 @@ THEOREMS = {
         "Cstl.SList.foreach_spec",
         "Cstl.SList.clear_spec",
         "Cstl.SList.sort_spec",
+        "Cstl.SList.refForeach_sound",
+        "Cstl.SList.msort_perm",
+        "Cstl.SList.msort_sorted",
         "Cstl.SList.walk_spec",
+        "Cstl.SList.step_refines",
         "Cstl.SList.run_refines",
+        "Cstl.SList.Abs_init",
     ],
     "C15": [
         "Cstl.SList.clear_spec",
